@@ -988,6 +988,41 @@ fire("c04-cat-slice-branch-keeps-old-name", "C04", TERMS,
 fire("c04-stack-variable-branch-keeps-old-name", "C04", TERMS,
      "                parts = self.parts\n                return Stack(index.name, parts)", "                parts = self.parts\n                return Stack(self.name, parts)", "R04.10", "Stack.eager_subs")
 
+
+# ---- round 5: R18.9-R18.12, boundary clause of R15.8
+COMPILER = "funsor/compiler.py"
+TRACER = "funsor/ops/tracer.py"
+PROGRAM = "funsor/ops/program.py"
+NUMPY_LOG = "funsor/einsum/numpy_log.py"
+fire("c18-op-reduce-drops-falsy-params", "C18", OP,
+     "        return apply, (type(self), (), self.defaults)", "        params = {k: v for k, v in self.defaults.items() if v}\n        return apply, (type(self), (), params)", "R18.9", "Op.__reduce__")
+fire("c18-as-code-no-trailing-comma", "C18", PROGRAM, '            let(f"{op}({args},)")', '            let(f"{op}({args})")', "R18.10", "as_code")
+silent("c18-s-as-code-comma-per-argument", "C18", PROGRAM,
+       '            args = ", ".join(f"v{arg_id}" for arg_id in arg_ids)\n            let(f"{op}({args},)")',
+       '            args = " ".join(f"v{arg_id}," for arg_id in arg_ids)\n            let(f"{op}({args})")')
+fire("c18-compile-allocates-id-for-arg-tuple", "C18", COMPILER,
+     "        if isinstance(f, tuple):\n            continue  # Skip from Tuple directly to its elements.\n        ids[f] = len(ids)\n",
+     "        ids[f] = len(ids)\n        if isinstance(f, tuple):\n            continue  # Skip from Tuple directly to its elements.\n", "R18.11", "compile_funsor")
+fire("c18-tracer-constant-numbered-without-slot", "C18", TRACER,
+     "            ids[id(result)] = len(ids)\n            constants.append(result)\n", "            ids[id(result)] = len(ids)\n            if allow_constants:\n                constants.append(result)\n",
+     "R18.11", "trace_function")
+fire("c18-tracer-discovery-order", "C18", TRACER,
+     "    anf = [node for node in dag.values() if node[1] is None]\n    for result, op, args in trace.values():  # forward\n        if id(result) in dag and dag[id(result)][1] is not None:\n            anf.append(dag[id(result)])\n",
+     "    anf = list(reversed(dag.values()))  # forward\n", "R18.12", "trace_function")
+silent("c18-s-tracer-order-by-comprehension", "C18", TRACER,
+       "    for result, op, args in trace.values():  # forward\n        if id(result) in dag and dag[id(result)][1] is not None:\n            anf.append(dag[id(result)])\n",
+       "    anf += [dag[id(result)] for result, op, args in trace.values() if id(result) in dag and dag[id(result)][1] is not None]\n")
+fire("c15-logsumexp-strict-finiteness-test", "C15", ARRAY,
+     "    amax = np.where(np.isfinite(amax), amax, 0.0)", "    amax = np.where(np.abs(amax) < np.finfo(amax.dtype).max, amax, 0.0)", "R15.8", "logsumexp")
+silent("c15-s-logsumexp-finiteness-by-abs", "C15", ARRAY,
+       "    amax = np.where(np.isfinite(amax), amax, 0.0)", "    amax = np.where(np.abs(amax) <= np.finfo(amax.dtype).max, amax, 0.0)")
+silent("c15-s-logsumexp-finiteness-by-isinf", "C15", ARRAY,
+       "    amax = np.where(np.isfinite(amax), amax, 0.0)", "    amax = np.where(np.isinf(amax), 0.0, amax)")
+fire("c15-logeinsum-uncontracted-operand-gets-ones", "C15", NUMPY_LOG,
+     "        exp_operands.append(ops.exp(operand - shift))\n",
+     "        if any(dim not in output for dim in dims):\n            exp_operands.append(ops.exp(operand - shift))\n        else:\n            exp_operands.append(ops.new_full(operand, operand.shape, 1.0))\n",
+     "R15.8", "einsum")
+
 # ===== derived variants: must stay at the END of this file (they enumerate every rename() variant above) =====
 # `if c: A else: B` -> `if not c: B else: A` in the anchor functions (behaviour-preserving)
 def invert(prop, file, qual):
